@@ -47,8 +47,32 @@ GRAPH_PROBES = [
     ([("a", "(define-library (a) (import (only (b) vb)) (export va) (begin (define va 1)))"), ("b", "(define-library (b) (import (only (a) va)) (export vb) (begin (define vb 1)))")],
      "(import (a))", ["ERR LibraryImportCyclic"]),
     ([("a", "(define-library (a) (import (prefix (a) q-)) (export va) (begin (define va 1)))")], "(import (rename (a) (va vz)))", ["ERR LibraryImportCyclic"]),
+    # a library on a cycle finishes another import declaration (or an earlier import set) first: still a cycle
+    ([("a", "(define-library (a) (import (d)) (import (b)) (export va) (begin (define va 1)))"), lib("b", ["a"]), lib("d")], "(import (a))", ["ERR LibraryImportCyclic"]),
+    ([("a", "(define-library (a) (import (d) (b)) (export va) (begin (define va 1)))"), lib("b", ["a"]), lib("d")], "(import (b))\n(import (d))\nvd", ["ERR LibraryImportCyclic", "OK -", "OK I 1"]),
+    # the underlying error names the library that is missing, not the one that imported it (also through a diamond)
+    ([lib("a", ["b"]), lib("b", ["gone"])], "(import (a))", ["ERR LibraryNotFound ~gone"]),
+    ([lib("top", ["l", "r"]), lib("l", ["d"]), lib("r", ["d"]), lib("d", ["gone"])], "(import (top))", ["ERR LibraryNotFound ~gone"]),
     # a diamond visited three times, then once more
     ([lib("a", ["b", "c", "d"]), lib("b", ["d"]), lib("c", ["d"]), lib("d")], "(import (a))\n(import (d))\nvd", ["OK -", "OK -", "OK I 1"]),
+]
+_A = "(define-library (a) (export va) (begin (define va 1)))"
+# (files <stem>.sld in the program directory, program, expected outcomes): libraries found through the file system
+FILE_PROBES = [
+    ([("a", _A)], "(import (a))\n(import (zz))\n(import (a))\nva", ["OK -", "ERR LibraryNotFound ~zz", "OK -", "OK I 1"]),
+    # a file that does not define the library it is named after: not found, and nothing else becomes importable through it
+    ([("b", "(define-library (c) (export vc) (begin (define vc 2)))")], "(import (b))\n(import (c))\n(+ 1 2)", ["ERR LibraryNotFound ~b", "ERR LibraryNotFound ~c", "OK I 3"]),
+    # a second definition inside another library's file never shadows that library's own file
+    ([("util", "(define-library (c) (export vc) (begin (define vc 2)))\n(define-library (util) (export vu) (begin (define vu 5)))"), ("c", "(define-library (c) (export vc) (begin (define vc 1)))")],
+     "(import (util))\n(import (c))\nvc", ["OK -", "OK -", "OK I 1"]),
+    ([("util", "(define-library (c) (export vc) (begin (define vc 2)))\n(define-library (util) (export vu) (begin (define vu 5)))"), ("c", "(define-library (c) (export vc) (begin (define vc 1)))")],
+     "(import (c))\n(import (util))\nvc", ["OK -", "OK -", "OK I 1"]),
+    # a malformed file is an error of its own and poisons nothing
+    ([("bad", "(define-library (bad) (export x"), ("a", _A)], "(import (bad))\n(import (a))\nva", ["ERR Syntax", "OK -", "OK I 1"]),
+    # cycles and diamonds through files
+    ([("a", "(define-library (a) (import (b)) (export va) (begin (define va 1)))"), ("b", "(define-library (b) (import (a)) (export vb) (begin (define vb 1)))")], "(import (a))\n(+ 1 2)", ["ERR LibraryImportCyclic", "OK I 3"]),
+    ([("a", "(define-library (a) (import (b) (c)) (export va) (begin (define va 1)))"), ("b", "(define-library (b) (import (d)) (export vb) (begin (define vb 1)))"),
+      ("c", "(define-library (c) (import (d)) (export vc) (begin (define vc 1)))"), ("d", "(define-library (d) (export vd) (begin (define vd 1)))")], "(import (a))\nva", ["OK -", "OK I 1"]),
 ]
 _PROBE = {}
 
@@ -57,10 +81,26 @@ def graph_probe(nat):
     if id(nat) in _PROBE:
         return _PROBE[id(nat)]
     res = (False, "native import-graph probes (failed import then retry, self/2/3-cycles, diamond, repeated import, missing dependency, cycle after healthy import, nested import sets) all give the expected outcomes")
-    for libs, prog, want in GRAPH_PROBES:
-        cmd = "libs 0 %d %s %s" % (len(libs), " ".join("%s %s" % (hexs(n), hexs(s)) for n, s in libs), hexs(prog))
+    for libs, prog, want, how in [(l, p_, w, "libs 0") for (l, p_, w) in GRAPH_PROBES] + [(l, p_, w, "flibs") for (l, p_, w) in FILE_PROBES]:
+        cmd = "%s %d %s %s" % (how, len(libs), " ".join("%s %s" % (hexs(n), hexs(s)) for n, s in libs), hexs(prog))
         out = nat.cmd(cmd).split(" ;;; ")[0]
-        got = [" ".join(f.split()[:2]) if f.strip().startswith("ERR") else f.strip() for f in out.split(" ;; ")]
+        raw = [f.strip() for f in out.split(" ;; ")]
+        got = []
+        for k, f in enumerate(raw):
+            if f.startswith("ERR"):
+                t = f.split()
+                g = " ".join(t[:2])
+                # "ERR Kind ~text": the error message must mention text
+                w = want[k] if k < len(want) else ""
+                if " ~" in w:
+                    try:
+                        msg = bytes.fromhex(t[-1]).decode("utf8", "replace")
+                    except Exception:
+                        msg = ""
+                    g += " ~" + (w.split(" ~", 1)[1] if w.split(" ~", 1)[1] in msg else "<message: %s>" % msg)
+                got.append(g)
+            else:
+                got.append(f)
         if got != want:
             res = (True, "libraries %s, program %r: outcomes %s (expected %s)" % ([n for n, _ in libs], prog, got, want))
             break
@@ -98,7 +138,8 @@ def spec_in_progress(chk, NL, DEPTH2=False):
         key = nm.fields[0] if isinstance(nm, Adt) else nm
         ex.log("get_library", name=key, in_progress=member_now(key.id))
         yield Ok(Lazy("interpreter::library::Library<R>", "the_library"))
-        e = skel.err_value("from get_library")
+        # an ARBITRARY error value (its kind can be inspected by the code under check, which must hand it on unchanged)
+        e = Lazy("error::Located<error::ErrorData>", "underlying_error")
         ex.log("get_library_err", error=e)
         yield Err(e)
 
@@ -160,10 +201,189 @@ def spec_in_progress(chk, NL, DEPTH2=False):
             post.append(e["name"].id == target_id)
         # the underlying error is passed on unchanged
         if gerr:
-            post.append(z3.BoolVal(is_err and rv.fields[0] is gerr[0]["error"]))
+            post.append(z3.BoolVal(is_err and ex.deref(rv.fields[0]) is gerr[0]["error"]))
         elif not cyc:
             post.append(z3.BoolVal(isinstance(rv, Adt) and rv.variant == "Ok"))
         chk.oblige(ex, unit, "the in-progress set is restored on every exit (Ok / underlying error / cyclic); cyclic error iff the name was in progress, then no load is attempted; the name is in progress while it loads",
+                   z3.And(*post), inputs, replay)
+
+
+def spec_eval_import_marks(chk, NL):
+    """an import declaration as a whole neither adds nor removes in-progress marks (it runs inside library bodies too, while the
+    libraries further up are still loading) and hands on the first error unchanged"""
+    ex = chk.executor(True)
+    nat = chk.ws.runner("dev")
+    unit = "Interpreter::eval_import (eval_import_set stubbed): in-progress marks"
+    chk.region_ns = {}
+    replay = lambda vals: graph_probe(nat)
+    names = [LibName(z3.IntVal(i), "L%d" % i) for i in range(NL)]
+    inset = [z3.Bool("in_progress_%d" % i) for i in range(NL)]
+    st = MapObj("imported_library", is_set=True)
+    for n, b in zip(names, inset):
+        st.entries.append((n, b, Cell(None)))
+    inputs = {"in%d" % i: inset[i] for i in range(NL)}
+    ex.key_eq_hook = lambda ex_, a, b: (ex_.deref(a).id == ex_.deref(b).id) if isinstance(ex_.deref(a), LibName) and isinstance(ex_.deref(b), LibName) else z3.BoolVal(ex_.deref(a) is ex_.deref(b))
+
+    def member_now(ident):
+        return z3.Or(*[z3.And(k.id == ident, p) for (k, p, c) in st.entries if isinstance(k, LibName)]) if st.entries else z3.BoolVal(False)
+
+    @skel.stub(ex, r"::eval_import_set$", "eval_import_set -> any Ok(bindings) or any Err, marks untouched (its own obligation); logged")
+    def eis(ex, callee, args, rt):
+        n = len([e for e in ex.events if e["kind"] == "import_set"])
+        ex.log("import_set", which=ex.deref(args[1]))
+        yield Ok(SeqObj("bindings%d" % n, "(String, Value)", [], 0, 0))
+        e = Lazy("error::Located<error::ErrorData>", "underlying_error%d" % n)
+        ex.log("import_set_err", error=e)
+        yield Err(e)
+
+    it = Lazy("interpreter::Interpreter<R>", "it")
+    it.fields[2] = st
+    nsets = z3.Int("nsets")
+    ex.ctx.add(nsets >= 0, nsets <= 2)
+    inputs["nsets"] = nsets
+    sets = ex.fresh_seq("set", "error::Located<parser::parser::ImportSetBody>", maxlen=2, ln=nsets)
+    decl = Adt("ImportDeclaration", None, [sets])
+    target = MapObj("target_defs")
+    envrc = Ref(Cell(Adt("LexicalScope", None, [NONE, target]), "target_frame"))
+    f = ex.fn_by_suffix("::eval_import")
+    ex.panic_hook = lambda info: chk.oblige(ex, unit, "no-panic", z3.BoolVal(False), inputs, replay)
+    for rv in ex.run(f, [Ref(Cell(it)), Ref(Cell(decl)), envrc]):
+        chk.path(unit)
+        errs = [e for e in ex.events if e["kind"] == "import_set_err"]
+        post = [member_now(z3.IntVal(i)) == inset[i] for i in range(NL)]
+        post.append(z3.BoolVal(all(isinstance(k, LibName) for (k, p, c) in st.entries)))
+        post.append(z3.BoolVal(it.fields[2] is st))
+        is_err = isinstance(rv, Adt) and rv.variant == "Err"
+        if errs:
+            post.append(z3.BoolVal(is_err and len(errs) == 1 and ex.deref(rv.fields[0]) is errs[0]["error"]))
+        else:
+            post.append(z3.BoolVal(isinstance(rv, Adt) and rv.variant == "Ok"))
+        chk.oblige(ex, unit, "the in-progress marks after an import declaration are those before it; the first failing import set ends it with that very error",
+                   z3.And(*post), inputs, replay)
+
+
+def spec_registry(chk, NL):
+    """get_library together with the real file_library_factory (filesystem and parsing stubbed): a load attempt may add to the
+    registry of library factories only an entry for the REQUESTED name and never replaces an entry - otherwise what a later
+    import finds would depend on the imports made before it"""
+    ex = chk.executor(True)
+    nat = chk.ws.runner("dev")
+    unit = "Interpreter::get_library + file_library_factory (filesystem, parsing and new_library stubbed): factory registry"
+    chk.region_ns = {}
+    replay = lambda vals: graph_probe(nat)
+    names = [LibName(z3.IntVal(i), "L%d" % i) for i in range(NL)]
+    present = [z3.Bool("registered_%d" % i) for i in range(NL)]
+    reg = MapObj("lib_factories")
+    facts = []
+    for i, (n, b) in enumerate(zip(names, present)):
+        fo = Ref(Cell(Lazy("library_factory::GenericLibraryFactory<V>", "factory%d" % i), "factory_rc%d" % i))
+        facts.append(fo)
+        reg.entries.append((n, b, Cell(fo)))
+    n0 = len(reg.entries)
+    target_id = z3.Int("target")
+    ex.ctx.add(target_id >= 0, target_id <= NL)
+    target = LibName(target_id, "T")
+    inputs = {"target": target_id}
+    for i in range(NL):
+        inputs["registered%d" % i] = present[i]
+    ex.key_eq_hook = lambda ex_, a, b: (ex_.deref(a).id == ex_.deref(b).id) if isinstance(ex_.deref(a), LibName) and isinstance(ex_.deref(b), LibName) else z3.BoolVal(ex_.deref(a) is ex_.deref(b))
+
+    @skel.stub(ex, r"::new_library$", "new_library -> any Ok or any Err; logged with the factory it was given")
+    def new_library(ex, callee, args, rt):
+        ex.log("new_library", factory=ex.deref(args[1]))
+        yield Ok(Lazy("interpreter::library::Library<R>", "instance"))
+        e = Lazy("error::Located<error::ErrorData>", "load_error")
+        ex.log("load_err", error=e)
+        yield Err(e)
+
+    @skel.stub(ex, r"^(std::env::)?current_dir$", "current_dir -> any Ok(path) or any Err")
+    def current_dir(ex, callee, args, rt):
+        yield Ok(Opaque("PathBuf", "cwd"))
+        yield Err(Opaque("std::io::Error", "io"))
+
+    @skel.stub(ex, r"Path::join|PathBuf::join|::with_extension|LibraryName::path$|<.*PathBuf as Deref>::deref|<.*PathBuf as Clone>::clone|<.*PathBuf as AsRef<.*>>::as_ref", "path arithmetic -> an opaque path")
+    def path_ops(ex, callee, args, rt):
+        yield Opaque("PathBuf", "path")
+
+    @skel.stub(ex, r"Path::exists$", "Path::exists -> either")
+    def exists(ex, callee, args, rt):
+        b = ex.fresh_bool("file_exists")
+        ex.log("exists", cond=b)
+        yield b
+
+    @skel.stub(ex, r"(^|::)file_char_stream$", "file_char_stream -> any Ok(stream) or any Err")
+    def fcs(ex, callee, args, rt):
+        yield Ok(Opaque("CharStream", "stream"))
+        e = Lazy("error::Located<error::ErrorData>", "read_error")
+        ex.log("load_err", error=e)
+        yield Err(e)
+
+    @skel.stub(ex, r"::from_char_stream(::<.*>)?$", "LibraryFactory::from_char_stream -> any Ok(factory) or any Err; logged with the requested name")
+    def fchs(ex, callee, args, rt):
+        ex.log("parse_file", name=ex.deref(args[0]))
+        yield Ok(Lazy("library_factory::GenericLibraryFactory<V>", "factory_from_file"))
+        e = Lazy("error::Located<error::ErrorData>", "parse_error")
+        ex.log("load_err", error=e)
+        yield Err(e)
+
+    # should the code under check read the file itself instead of calling from_char_stream: an arbitrary sequence of <= 2 statements
+    def parser_items(ex_, it_):
+        n = len([e for e in ex_.events if e["kind"] == "file_statement"])
+        yield NONE
+        if n < 2:
+            ex_.log("file_statement")
+            yield Some(Ok(Lazy("parser::parser::Statement", "file_statement%d" % n)))
+            e = Lazy("error::Located<error::ErrorData>", "parse_error%d" % n)
+            ex_.log("load_err", error=e)
+            yield Some(Err(e))
+
+    @skel.stub(ex, r"Lexer::(<.*>::)?from_char_stream$", "lexer construction -> opaque")
+    def mk_lexer(ex, callee, args, rt):
+        yield Opaque("Lexer", "file_lexer")
+
+    @skel.stub(ex, r"Parser::(<.*>::)?from_lexer$", "Parser over the library file -> an iterator yielding the end, any statement, or any error (at most 2 statements)")
+    def mk_parser(ex, callee, args, rt):
+        yield IterObj("custom", next=parser_items)
+
+    @skel.stub(ex, r"<.* as From<std::io::Error>>::from$", "io error -> scheme error")
+    def from_io(ex, callee, args, rt):
+        e = Lazy("error::Located<error::ErrorData>", "io_error")
+        ex.log("load_err", error=e)
+        yield e
+
+    it = Lazy("interpreter::Interpreter<R>", "it")
+    it.fields[1] = Adt("LibraryLoader", None, [reg])
+    located = Adt("Located", None, [target, Opaque("location", "loc")])
+    f = ex.fn_by_suffix("::get_library")
+    ex.panic_hook = lambda info: chk.oblige(ex, unit, "no-panic", z3.BoolVal(False), inputs, replay)
+    for rv in ex.run(f, [Ref(Cell(it)), located]):
+        chk.path(unit)
+        post = []
+        # the old entries: same presence, same factory object
+        for i in range(NL):
+            k, p, c = reg.entries[i]
+            post.append(z3.Implies(present[i], z3.And(p, z3.BoolVal(c.v is facts[i]))))
+            post.append(z3.Implies(z3.And(z3.Not(present[i]), target_id != i), z3.Not(p)))
+        # new entries: only for the requested name, only when it was not registered, only with the factory read for it
+        parsed = [e for e in ex.events if e["kind"] == "parse_file"]
+        was = z3.Or(*[z3.And(target_id == i, present[i]) for i in range(NL)])
+        for (k, p, c) in reg.entries[n0:]:
+            okk = isinstance(k, LibName)
+            post.append(z3.BoolVal(okk))
+            if okk:
+                post.append(z3.Implies(p, z3.And(k.id == target_id, z3.Not(was))))
+        for e in parsed:
+            nm = e["name"]
+            post.append(z3.BoolVal(isinstance(nm, LibName)) if not isinstance(nm, LibName) else nm.id == target_id)
+        errs = [e for e in ex.events if e["kind"] == "load_err"]
+        news = [e for e in ex.events if e["kind"] == "new_library"]
+        is_err = isinstance(rv, Adt) and rv.variant == "Err"
+        post.append(z3.BoolVal(len(news) <= 1))
+        if __import__("os").environ.get("VERIF_DEBUG_POST"):
+            for i_, c_ in enumerate(post):
+                if ex.ctx.check(z3.Not(c_)) == z3.sat:
+                    print("   failing conjunct", i_, str(c_)[:200], "entries", [(repr(k), str(p_)[:30]) for (k, p_, c) in reg.entries])
+        chk.oblige(ex, unit, "a load attempt leaves every other registry entry as it was and adds at most an entry for the requested name",
                    z3.And(*post), inputs, replay)
 
 
@@ -177,5 +397,7 @@ def run(chk):
         "termination for arbitrary graphs, file lookup relative to the program directory and unreadable/malformed files are outside (filesystem)",
         "structural counterexamples are confirmed by native import-graph probes before they are reported",
     ]
-    chk.run_probes("import graphs", graph_probe, chk.ws.runner("dev"), len(GRAPH_PROBES))
+    chk.run_probes("import graphs", graph_probe, chk.ws.runner("dev"), len(GRAPH_PROBES) + len(FILE_PROBES))
     chk.step("in-progress set", spec_in_progress, chk, NL, thorough)
+    chk.step("eval_import marks", spec_eval_import_marks, chk, NL)
+    chk.step("factory registry", spec_registry, chk, NL)
